@@ -80,7 +80,7 @@ func init() {
 
 func runDotText(c *Ctx) *Violation {
 	t := c.T
-	c.Declare("subgraph_to_subgraph_edge", "chained_edge_statement", "nested_subgraph_endpoint", "declared_node_in_subgraph_endpoint", "attribute_statement", "parse_stream_error_injected", "parse_stream_chunked", "port_on_chain_vertex", "simple_destination_checked")
+	c.Declare("subgraph_to_subgraph_edge", "chained_edge_statement", "nested_subgraph_endpoint", "declared_node_in_subgraph_endpoint", "attribute_statement", "parse_stream_error_injected", "parse_stream_chunked", "port_on_chain_vertex", "simple_destination_checked", "self_loop_into_simple_destination")
 	next := 0
 	fresh := func() string {
 		next++
@@ -284,6 +284,38 @@ func runDotText(c *Ctx) *Violation {
 		for _, n := range pairs {
 			if n != 1 {
 				simpleOK = false
+			}
+		}
+		if !simpleOK {
+			// a simple graph cannot hold the document: a self loop makes the
+			// destination refuse the edge, which Unmarshal reports as an error
+			// (never a panic, wherever in a chain the loop stands); a repeated
+			// pair replaces the edge
+			selfLoop := false
+			for k := range want {
+				ft := strings.SplitN(strings.SplitN(k, " ", 2)[0], "->", 2)
+				if ft[0] == ft[1] {
+					selfLoop = true
+				}
+			}
+			c.Oracle("simple-destination-refusal")
+			if selfLoop {
+				c.Probe("self_loop_into_simple_destination", 1)
+			}
+			var err error
+			var panicked interface{}
+			func() {
+				defer func() { panicked = recover() }()
+				err = dot.Unmarshal([]byte(doc), dtSimple{simple.NewDirectedGraph()})
+			}()
+			if panicked != nil {
+				return viol("dot-text/Unmarshal/panic-for-refused-edge", "Unmarshal into a simple directed graph panics (%v) instead of returning an error\n%s", panicked, doc)
+			}
+			if selfLoop && err == nil {
+				return viol("dot-text/Unmarshal/self-loop-accepted", "the document has a self loop, the simple destination refuses self loops, and Unmarshal reports no error\n%s", doc)
+			}
+			if !selfLoop && err != nil {
+				return viol("dot-text/Unmarshal/rejected", "a valid DOT document is rejected by Unmarshal: %v\n%s", err, doc)
 			}
 		}
 		if simpleOK {
